@@ -124,7 +124,7 @@ class Runner:
             self.proc.kill()
 
     def run(self, archive, argv, stdin=b"", pre=(), outside=(), uid=0, archive_mtime=NOW - 1000, timeout=20, keep=False,
-            archive_arg=b"../archive.lzh", want_trees=True, stdin_pipe=False, umask=None, nofile=None, fsize=None):
+            archive_arg=b"../archive.lzh", want_trees=True, stdin_pipe=False, umask=None, nofile=None, fsize=None, stdout_kind=None):
         self.n += 1
         if uid and os.geteuid() != 0:
             uid = 0          # cannot drop privileges: the case runs as the invoking user (who is then not root either)
@@ -141,6 +141,8 @@ class Runner:
             f.write(stdin)
         if stdin_pipe:
             open(os.path.join(S, "stdin-pipe"), "w").close()
+        if stdout_kind in ("full", "closed"):
+            open(os.path.join(S, "stdout-" + stdout_kind), "w").close()
         for nm, val, fmt in (("umask", umask, "%o"), ("nofile", nofile, "%d"), ("fsize", fsize, "%d")):
             if val is not None:
                 with open(os.path.join(S, nm), "w") as f:
